@@ -1,12 +1,14 @@
 import Driver.Util
 import NixModel.Pure.Upgrade
+import NixModel.Pure.UpgradeInside
 open Lean Nix.Upgrade
 
 namespace Driver.C18
 
 /-! line protocol (one JSON array per line):
  * `["history", lib, file, [k₁, k₂, …]]` — invocation `i` (run tag `i`, 1-based) of the upgrade on the
-   file left by invocation `i-1`, interrupted before its `kᵢ`-th step (`null` = not interrupted);
+   file left by invocation `i-1`, interrupted before its `kᵢ`-th step (`null` = not interrupted; `[k, c]` =
+   inside step `k`, at its `(c+1)`-th `create_property` call);
    answer: per invocation `{"steps": …, "file": …, "err": …}`
  * `["stale", lib, file, k]` — two task lists collected up front; the first processed (interrupted before
    step `k` / completely for `null`), then the stale second one completely
@@ -175,9 +177,13 @@ def history (lib : List Nat) (f : File) (ks : List Json) : Json :=
     | [] => acc
     | k :: ks =>
       let steps := collect lib f
-      let r := match k.getNat? with
-        | .ok k => interrupt lib run k f
-        | _ => upgrade lib run f
+      let r := match k with
+        | .arr #[a, b] => match a.getNat?, b.getNat? with
+          | .ok k, .ok c => interruptInside lib run k c f
+          | _, _ => upgrade lib run f
+        | _ => match k.getNat? with
+          | .ok k => interrupt lib run k f
+          | _ => upgrade lib run f
       go (run + 1) r.1 ks (acc.push (Json.mkObj [("steps", .arr (steps.map stepJ).toArray),
         ("file", fileJ r.1), ("err", errJ r.2)]))
   .arr (go 1 f ks #[])
